@@ -1,10 +1,10 @@
 /-
-Model of WAL replication between a leader partition and ONE follower (property C08).
+Model of WAL replication between a leader partition and TWO followers (property C08).
 Core Lean only.
 
 Go code mirrored (branch for branch):
   replica/partition.go          partition.replica, ReplicaLog, ReplicaAckIndex, ResetReplicaIndex,
-                                WriteLog, IsExpire (the Sync + GC prefix)
+                                WriteLog, IsExpire (Sync + GC, the drained test, stopReplicator)
   replica/replicator.go         Consume, GetMessage, ReplicaIndex, AckIndex, AppendIndex,
                                 ResetReplicaIndex, ResetAppendIndex, SetAckIndex, IgnoreMessage
   replica/replicator_remote.go  IsReady (handshake), Connect, Replica, closeStream,
@@ -12,13 +12,19 @@ Go code mirrored (branch for branch):
   app/storage/rpc/replica.go    ReplicaHandler.Replica (loop body), GetReplicaAckIndex, Reset
   pkg/queue/queue.go            the two counters appendedSeq/acknowledgedSeq, Put, Get
                                 (validateSequence), SetAppendedSeq, SetAcknowledgedSeq
-  pkg/queue/fanout_queue.go     SetAppendedSeq (queue + every group), Sync
-  pkg/queue/consumer_group.go   consume, Ack, SetConsumedSeq, SetSeq, NewConsumerGroup (re-open)
+  pkg/queue/fanout_queue.go     SetAppendedSeq (queue + every group), Sync, StopConsumerGroup
+  pkg/queue/consumer_group.go   consume, Ack, SetConsumedSeq, SetSeq, IsEmpty, NewConsumerGroup (re-open)
 
 A log is NOT modelled as "base + list" (that would make "no holes" true by construction):
 it is the two counters the queue keeps plus a position-indexed store (the index/data pages),
 exactly as `queue.Get` sees it: a position is readable iff `ack < i ≤ app` and then the
 page content is returned.  `SetAppendedSeq` moves both counters and leaves the pages alone.
+
+The state is written from the point of view of follower A (fields without suffix); follower B
+has the same fields with suffix `2`. All functions act on A; B's events are A's events
+conjugated with `swap`. The two followers interact only through the leader's queue: GC takes
+the minimum of both groups' acks, and `ResetAppendIndex` (fanOutQueue.SetAppendedSeq) moves the
+queue AND every consumer group.
 
 Sequences are `Int` (Go int64; -1 = "nothing yet"); no overflow is modelled.
 -/
@@ -72,42 +78,73 @@ inductive Fault
   | getack    -- GetReplicaAckIndex rpc fails
   | reset     -- Reset rpc fails
   | connect   -- replicaCli.Replica(ctx) (stream creation) fails
-  | send      -- stream.Send fails, request not delivered
+  | send      -- the request is lost: stream.Send fails, or Send succeeds, the request never reaches
+              -- the follower and Recv fails — the same for both sides' state
   | recv      -- request delivered and handled, stream.Recv fails
   deriving Repr, DecidableEq
 
-/-- the code of the comparison that guards `ResetAppendIndex` in IsReady.
-`fixed = false`: `remoteLastReplicaAckIdx > appendIdx` (the tree as it is);
-`fixed = true` : `nextReplicaIdx > appendIdx` (follower strictly ahead). Selected by the
+/-- the shape of the comparison that guards `ResetAppendIndex` in IsReady.
+`fixed = true` : `nextReplicaIdx > appendIdx` (follower strictly ahead; the tree as it is now);
+`fixed = false`: `remoteLastReplicaAckIdx > appendIdx` (before fix 32eabc8). Selected by the
 regenerated fact `Generated.C08.aheadFixed`. -/
 structure Cfg where
   fixed : Bool
   deriving Repr, DecidableEq
 
-/-- image of the leader partition directory (queue + this follower's group + the other group) -/
+/-- image of the leader partition directory (queue + both followers' groups) -/
 structure Img where
   L : Log
   cons : Int
   gack : Int
-  oack : Int
+  cons2 : Int
+  gack2 : Int
   deriving Repr, DecidableEq
 
 structure St where
   L : Log            -- leader's queue
-  cons : Int         -- consumedSeq of the follower's consumer group on the leader
-  gack : Int         -- acknowledgedSeq of that group
-  oack : Int         -- acknowledgedSeq of one other consumer group on the leader (holds GC back)
+  -- follower A: its consumer group on the leader, its log, the leader's remoteReplicator for it
+  cons : Int         -- consumedSeq
+  gack : Int         -- acknowledgedSeq
   F : Log            -- follower's queue
   chan : Chan        -- remoteReplicator.state
   stream : Stream    -- remoteReplicator.replicaStream
   live : Bool        -- stateMgr.GetLiveNode(follower)
   susp : Bool        -- remoteReplicator.isSuspend (the replica loop is parked on `<-r.suspend`)
-  img : Option Img   -- saved image of the leader's partition directory
+  dz : Bool          -- ghost: the OTHER follower's handshake moved this group (ResetAppendIndex) while this channel was ready
+  stopped : Bool     -- IsExpire stopped this group and removed its replicator
+  -- follower B
+  cons2 : Int
+  gack2 : Int
+  F2 : Log
+  chan2 : Chan
+  stream2 : Stream
+  live2 : Bool
+  susp2 : Bool
+  dz2 : Bool
+  stopped2 : Bool
+  imgs : List Img    -- saved images of the leader's partition directory, newest first
+  gone : Bool        -- IsExpire reported the partition expired (writeAheadLog.destroy removes it)
   deriving Repr, DecidableEq
 
 def St.init : St :=
-  { L := Log.empty, cons := -1, gack := -1, oack := -1, F := Log.empty, chan := .init,
-    stream := .none, live := true, susp := false, img := none }
+  { L := Log.empty,
+    cons := -1, gack := -1, F := Log.empty, chan := .init, stream := .none, live := true, susp := false,
+    dz := false, stopped := false,
+    cons2 := -1, gack2 := -1, F2 := Log.empty, chan2 := .init, stream2 := .none, live2 := true, susp2 := false,
+    dz2 := false, stopped2 := false,
+    imgs := [], gone := false }
+
+def Img.swap (i : Img) : Img :=
+  { L := i.L, cons := i.cons2, gack := i.gack2, cons2 := i.cons, gack2 := i.gack }
+
+/-- exchange the roles of follower A and follower B -/
+def St.swap (s : St) : St :=
+  { L := s.L,
+    cons := s.cons2, gack := s.gack2, F := s.F2, chan := s.chan2, stream := s.stream2, live := s.live2,
+    susp := s.susp2, dz := s.dz2, stopped := s.stopped2,
+    cons2 := s.cons, gack2 := s.gack, F2 := s.F, chan2 := s.chan, stream2 := s.stream, live2 := s.live,
+    susp2 := s.susp, dz2 := s.dz, stopped2 := s.stopped,
+    imgs := s.imgs.map Img.swap, gone := s.gone }
 
 /-! ### follower side (app/storage/rpc/replica.go + partition.go) -/
 
@@ -124,7 +161,7 @@ def replicaAckIndex (F : Log) : Int := F.app
 /-- `partition.ResetReplicaIndex(idx)` = `fanOutQueue.SetAppendedSeq(idx-1)` -/
 def followerReset (F : Log) (idx : Int) : Log := F.setAppended (idx - 1)
 
-/-! ### leader side: consumer group + replicator accessors -/
+/-! ### leader side: consumer group + replicator accessors (for follower A) -/
 
 /-- `consumerGroup.consume` (the non-blocking part of Consume): -1 = SeqNoNewMessageAvailable -/
 def consume (s : St) : St × Int :=
@@ -138,9 +175,14 @@ def ackGroup (s : St) (a : Int) : St :=
 /-- `replicator.ResetReplicaIndex(idx)` = `SetConsumedSeq(idx-1)` -/
 def resetReplicaIndex (s : St) (idx : Int) : St := { s with cons := idx - 1 }
 
-/-- `replicator.ResetAppendIndex(idx)` = `fanOutQueue.SetAppendedSeq(idx-1)`: queue and EVERY group -/
+/-- `replicator.ResetAppendIndex(idx)` = `fanOutQueue.SetAppendedSeq(idx-1)`: the queue and EVERY
+registered consumer group of the partition, i.e. the other follower's group too unless IsExpire has
+stopped it (ghost `dz2` records that the other channel was ready when that happened) -/
 def resetAppendIndex (s : St) (idx : Int) : St :=
-  { s with L := s.L.setAppended (idx - 1), cons := idx - 1, gack := idx - 1, oack := idx - 1 }
+  { s with L := s.L.setAppended (idx - 1), cons := idx - 1, gack := idx - 1,
+           cons2 := if s.stopped2 then s.cons2 else idx - 1,
+           gack2 := if s.stopped2 then s.gack2 else idx - 1,
+           dz2 := if s.chan2 = .ready then true else s.dz2 }
 
 /-- `replicator.IgnoreMessage` -/
 def ignoreMessage (s : St) (idx : Int) : St :=
@@ -152,7 +194,7 @@ def aheadFires (cfg : Cfg) (remoteAck appendIdx : Int) : Bool :=
 
 /-- `remoteReplicator.IsReady` from `r.closeStream()` on (state ≠ ready, follower live). -/
 def handshake (cfg : Cfg) (s : St) (f : Fault) : St × Bool :=
-  let s := { s with stream := .none }                          -- closeStream
+  let s := { s with stream := .none, dz := false }             -- closeStream
   if f = .cli then ({ s with chan := .failure }, false)       -- CreateReplicaServiceClient err
   else if f = .getack then ({ s with chan := .failure }, false) -- getLastAckIdxFromReplica err
   else
@@ -190,16 +232,19 @@ def connect (s : St) (f : Fault) : St × Bool :=
   else if f = .connect then ({ s with chan := .failure }, false)
   else ({ s with stream := .up, chan := .ready }, true)
 
-/-- what one `partition.replica` call did -/
+/-- what one event did -/
 inductive Out
   | suspended   -- loop is parked, nothing ran
   | parked      -- IsReady found the follower offline and parked
   | notready    -- IsReady or Connect returned false
-  | idle        -- Consume had nothing
+  | idle        -- Consume had nothing / the event is not a replica step
   | ignored     -- GetMessage failed → IgnoreMessage
   | sendfail | recvfail
   | acked       -- answer = sent index → SetAckIndex
   | mismatch    -- answer ≠ sent index ("TODO: need reset ack sequence?")
+  | noreplicator -- the replicator was removed by IsExpire
+  | expired     -- IsExpire returned true
+  | gone        -- the partition was destroyed before
   deriving Repr, DecidableEq
 
 /-- `remoteReplicator.Replica(idx, msg)` with the follower's handler inlined -/
@@ -229,26 +274,65 @@ def replicaStep (cfg : Cfg) (s : St) (f : Fault) : St × Out :=
     if ok then sendPhase s f else (s, .notready)
   else (s, if s.susp then .parked else .notready)
 
-/-- re-opening the leader's partition directory: `NewConsumerGroup` lifts a group's ack to the
-queue's ack; a new `remoteReplicator` starts in `init` with no stream -/
-def reopenLeader (s : St) (L : Log) (cons gack oack : Int) : St :=
-  { s with L := L, cons := cons,
-           gack := if gack < L.ack then L.ack else gack,
-           oack := if oack < L.ack then L.ack else oack,
-           chan := .init, stream := .none, susp := false }
+/-- `NewConsumerGroup` on an existing group directory: the ack is lifted to the queue's ack and the
+consumed sequence to the (lifted) ack -/
+def liftAck (gack qack : Int) : Int := if gack < qack then qack else gack
+def liftCons (cons gack' : Int) : Int := if cons < gack' then gack' else cons
+
+/-- re-opening the leader's partition directory; new `remoteReplicator`s start in `init` with no
+stream; every group directory is loaded again -/
+def reopenLeader (s : St) (im : Img) : St :=
+  { s with L := im.L,
+           cons := liftCons im.cons (liftAck im.gack im.L.ack), gack := liftAck im.gack im.L.ack,
+           cons2 := liftCons im.cons2 (liftAck im.gack2 im.L.ack), gack2 := liftAck im.gack2 im.L.ack,
+           chan := .init, stream := .none, susp := false, dz := false, stopped := false,
+           chan2 := .init, stream2 := .none, susp2 := false, dz2 := false, stopped2 := false }
+
+def St.image (s : St) : Img :=
+  { L := s.L, cons := s.cons, gack := s.gack, cons2 := s.cons2, gack2 := s.gack2 }
+
+/-- `fanOutQueue.Sync` + `queue.GC`: the queue's ack becomes the smallest ack of the groups that
+are still registered (start value: appended), when that is ≥ 0; no group at all: nothing -/
+def syncGC (s : St) : St :=
+  if s.stopped = true ∧ s.stopped2 = true then s
+  else
+    let a0 := s.L.app
+    let a1 := if s.stopped = false ∧ s.gack < a0 then s.gack else a0
+    let a2 := if s.stopped2 = false ∧ s.gack2 < a1 then s.gack2 else a1
+    if 0 ≤ a2 then { s with L := s.L.setAck a2 } else s
+
+/-- `partition.stopReplicator`: the group is closed and removed from the fan-out queue, the
+replicator is closed (its stream too) and removed; its state is not observable any more, the model
+parks it at `init`/no stream -/
+def stopA (s : St) : St := { s with stopped := true, stream := .none, chan := .init }
+def stopB (s : St) : St := { s with stopped2 := true, stream2 := .none, chan2 := .init }
+
+/-- `partition.IsExpire` on a family past its write window: Sync, GC, then every registered group
+with nothing un-ACKNOWLEDGED (`consumerGroup.IsEmpty`: appended ≤ acknowledged) is stopped
+together with its replicator (the replicator object is gone: its state is not observable any more,
+the model parks it at `init`/no stream); expired iff no group has data -/
+def expire (s : St) : St × Out :=
+  let t := syncGC s
+  let t1 := if t.stopped = false ∧ t.L.app ≤ t.gack then stopA t else t          -- A's group IsEmpty
+  let t2 := if t.stopped2 = false ∧ t.L.app ≤ t.gack2 then stopB t1 else t1
+  let hasData := (t.stopped = false ∧ ¬ t.L.app ≤ t.gack) ∨ (t.stopped2 = false ∧ ¬ t.L.app ≤ t.gack2)
+  if hasData then (t2, .idle) else ({ t2 with gone := true }, .expired)
+
+inductive Who | a | b
+  deriving Repr, DecidableEq
 
 inductive Ev
-  | append (m : Msg)     -- partition.WriteLog on the leader
-  | step (f : Fault)     -- one partition.replica call
-  | frestart             -- follower process restarts (its log survives, the stream does not)
-  | flose                -- follower restarts with an empty log directory
-  | lsnap                -- take an image of the leader's partition directory
-  | lrestore             -- leader restarts from the image (= loses its log tail)
-  | lrestart             -- leader restarts on its current directory
-  | offline              -- follower disappears from the live nodes
-  | online (f : Fault)   -- follower (re)appears; a parked loop resumes its replica call
-  | gc                   -- partition.IsExpire's `log.Sync(); log.Queue().GC()`
-  | oack (n : Int)       -- the other consumer group acknowledges up to n
+  | append (m : Msg)          -- partition.WriteLog on the leader
+  | step (w : Who) (f : Fault) -- one partition.replica call for follower w
+  | frestart (w : Who)        -- follower process restarts (its log survives, the stream does not)
+  | flose (w : Who)           -- follower restarts with an empty log directory
+  | lsnap                     -- take an image of the leader's partition directory
+  | lrestore (k : Nat)        -- leader restarts from the k-th newest image (= loses its log tail); newer images are discarded
+  | lrestart                  -- leader restarts on its current directory
+  | offline (w : Who)         -- follower disappears from the live nodes
+  | online (w : Who) (f : Fault) -- follower (re)appears; a parked loop resumes its replica call
+  | gc                        -- log.Sync(); log.Queue().GC() (IsExpire on a family inside its write window)
+  | expire                    -- IsExpire on a family past its write window
   deriving Repr, DecidableEq
 
 def brokenStream (st : Stream) : Stream :=
@@ -256,31 +340,49 @@ def brokenStream (st : Stream) : Stream :=
   | .none => .none
   | _ => .broken
 
-def next (cfg : Cfg) (s : St) : Ev → St × Out
-  | .append m => (if m = [] then s else { s with L := s.L.put m }, .idle)
-  | .step f => if s.susp then (s, .suspended) else replicaStep cfg s f
-  | .frestart => ({ s with stream := brokenStream s.stream }, .idle)
-  | .flose => ({ s with F := Log.empty, stream := brokenStream s.stream }, .idle)
-  | .lsnap => ({ s with img := some { L := s.L, cons := s.cons, gack := s.gack, oack := s.oack } }, .idle)
-  | .lrestore =>
-    match s.img with
-    | none => (s, .idle)
-    | some im => (reopenLeader s im.L im.cons im.gack im.oack, .idle)
-  | .lrestart => (reopenLeader s s.L s.cons s.gack s.oack, .idle)
-  | .offline => ({ s with live := false }, .idle)
-  | .online f =>
+/-- events of follower A -/
+def peerEv (cfg : Cfg) (s : St) : Ev → St × Out
+  | .step _ f =>
+    if s.stopped then (s, .noreplicator)
+    else if s.susp then (s, .suspended) else replicaStep cfg s f
+  | .frestart _ => ({ s with stream := brokenStream s.stream }, .idle)
+  | .flose _ => ({ s with F := Log.empty, stream := brokenStream s.stream }, .idle)
+  | .offline _ => ({ s with live := false }, .idle)
+  | .online _ f =>
     let s := { s with live := true }
-    if s.susp then replicaStep cfg { s with susp := false } f else (s, .idle)
-  | .gc =>
-    let a0 := s.L.app
-    let a1 := if s.gack < a0 then s.gack else a0
-    let a2 := if s.oack < a1 then s.oack else a1
-    (if 0 ≤ a2 then { s with L := s.L.setAck a2 } else s, .idle)
-  | .oack n => (if s.oack ≤ n then { s with oack := n } else s, .idle)
+    if s.stopped then (s, .noreplicator)
+    else if s.susp then replicaStep cfg { s with susp := false } f else (s, .idle)
+  | _ => (s, .idle)
+
+def Ev.who : Ev → Option Who
+  | .step w _ => some w
+  | .frestart w => some w
+  | .flose w => some w
+  | .offline w => some w
+  | .online w _ => some w
+  | _ => none
+
+def next (cfg : Cfg) (s : St) (e : Ev) : St × Out :=
+  if s.gone then (s, .gone) else
+  match e.who with
+  | some .a => peerEv cfg s e
+  | some .b => let r := peerEv cfg s.swap e; (r.1.swap, r.2)
+  | none =>
+    match e with
+    | .append m => (if m = [] then s else { s with L := s.L.put m }, .idle)
+    | .lsnap => ({ s with imgs := s.image :: s.imgs }, .idle)
+    | .lrestore k =>
+      match s.imgs.drop k with
+      | [] => (s, .idle)
+      | im :: rest => ({ reopenLeader s im with imgs := im :: rest }, .idle)
+    | .lrestart => (reopenLeader s s.image, .idle)
+    | .gc => (syncGC s, .idle)
+    | .expire => expire s
+    | _ => (s, .idle)
 
 def run (cfg : Cfg) (evs : List Ev) : St := evs.foldl (fun s e => (next cfg s e).1) St.init
 
-/-- the channel as the leader believes it AND the stream really there -/
+/-- the channel to follower A as the leader believes it AND the stream really there -/
 def Synced (s : St) : Prop := s.chan = .ready ∧ s.stream = .up
 
 instance (s : St) : Decidable (Synced s) := by unfold Synced; infer_instance
